@@ -1066,10 +1066,59 @@ func main() {
 				}
 			}
 		}
+	case "race":
+		// not part of the check: TerminateAllSubscriptions ranges over the subCancellations map without
+		// its lock while operation goroutines delete from it under the lock
+		raceProbe(common.ArgInt(args, "n", 200), common.ArgInt(args, "k", 64))
+		return
 	default:
 		fmt.Fprintln(os.Stderr, "unknown subcommand")
 		os.Exit(2)
 	}
 	sk.flush()
 	fmt.Fprintf(os.Stderr, "c19: %d distinct cases\n", sk.written)
+}
+
+// raceProbe: K queries in flight on a legacy connection; their results arrive while the client
+// sends connection_terminate (or simply leaves: the read loop's deferred TerminateAllSubscriptions).
+func raceProbe(n, k int) {
+	for it := 0; it < n; it++ {
+		w := newWorld()
+		conn, peer := net.Pipe()
+		done := make(chan bool)
+		errCh := make(chan error, 1)
+		go func() {
+			websocket.Handle(done, errCh, conn, pool{w}, websocket.WithProtocol(websocket.ProtocolGraphQLWS), websocket.WithCustomClient(w),
+				websocket.WithCustomSubscriptionUpdateInterval(updateInterval), websocket.WithCustomKeepAliveInterval(far))
+			w.mu.Lock()
+			w.handlerDone = true
+			w.cond.Broadcast()
+			w.mu.Unlock()
+		}()
+		<-done
+		for id := 1; id <= k; id++ {
+			w.mu.Lock()
+			w.curID = id
+			w.mu.Unlock()
+			w.in <- inp{kind: "start", id: id, arg: "q"}.wire()
+		}
+		w.waitUntil(watchdog, func() bool { return len(w.execs) == k })
+		w.settle()
+		w.mu.Lock()
+		execs := append([]*exec(nil), w.execs...)
+		w.mu.Unlock()
+		var wg sync.WaitGroup
+		for _, e := range execs {
+			wg.Add(1)
+			go func(e *exec) { defer wg.Done(); e.cmd <- "data" }(e)
+		}
+		if it%2 == 0 {
+			w.in <- inp{kind: "terminate"}.wire()
+		}
+		_ = w.disconnect(0, false)
+		wg.Wait()
+		w.waitUntil(watchdog, func() bool { return w.handlerDone })
+		peer.Close()
+	}
+	fmt.Println("race probe: no crash in", n, "rounds")
 }
